@@ -16,16 +16,16 @@ claimed.update({
   note="History bound: establishment + 1 (quick) / 2 (thorough) further requests over <= 2 sessions; maxRetries = 2; fake datapath; request shapes are those of a well-formed baseline (malformed shapes are C01). Trust: z3, go/ssa, engine semantics (validated per run by native replay of sampled paths).",
   ref="DESIGN.md 6.2"),
  "C06": dict(
-  text="Inductive one-step check: from an arbitrary pool state satisfying the representation invariant (symbolic addresses, SEIDs, free/held split) one LookupOrAllocIP / DeallocIP with a symbolic SEID is executed symbolically and the solver decides range, exclusivity, stickiness, conservation and refusal-only-when-full; because the pre-state is arbitrary, histories of any length are covered for the pool sizes explored. Interleavings are covered by a path-sensitive lock-discipline check (every access to inventory/freePool on every path holds IPPool.mu), replayed with the race detector when violated. Construction is checked on concrete prefixes. Conservation at the session level is checked by the shared harness H_C05_cycles (more attach/detach cycles than the pool has addresses, every kind of session end).",
-  note="Pool sizes /29 (quick), /28 (thorough); the allocation trigger (UE IP Address IE flags) is exercised through C02/C05 harnesses. Assumes sync.Mutex gives mutual exclusion; goroutine schedules are not executed.",
+  text="Inductive one-step check: from an arbitrary pool state satisfying the representation invariant (symbolic addresses, SEIDs, free/held split) one LookupOrAllocIP / DeallocIP with a symbolic SEID is executed symbolically and the solver decides range, exclusivity, stickiness, conservation and refusal-only-when-full; because the pre-state is arbitrary, histories of any length are covered for the pool sizes explored. Interleavings are covered in two layers: a path-sensitive lock-discipline check (every access to inventory/freePool on every path holds IPPool.mu; violations replayed under the race detector), and - given that discipline - an exploration of every interleaving of the critical sections of two goroutines (LookupOrAllocIP against LookupOrAllocIP [+ DeallocIP], same or different session, scheduling decision at each mutex acquisition, context-switch bound 3), asserting stickiness, exclusivity and conservation; a schedule-dependent violation is confirmed natively by a stress run of the same scenario. Construction is checked on concrete prefixes. Conservation at the session level is checked by the shared harness H_C05_cycles (more attach/detach cycles than the pool has addresses, every kind of session end).",
+  note="Pool sizes /29 (quick), /28 (thorough); the allocation trigger (UE IP Address IE flags) is exercised through C02/C05 harnesses. Assumes sync.Mutex gives mutual exclusion. Schedules: 2 goroutines, <= 3 operations, interleavings at critical-section granularity (finer ones are irrelevant once no shared access happens outside a critical section, which the discipline check establishes on the same paths); more goroutines or longer operation sequences are outside.",
   ref="DESIGN.md 6.6"),
  "C07": dict(
-  text="Inductive one-step checks: FTEIDGenerator.Allocate/FreeID/IsAllocated from an arbitrary valid generator state (symbolic cursor, so wrap-around of the 32-bit cursor is an ordinary case, symbolic used set) and NewPFCPSession with an arbitrary, possibly repeating random source against a store holding arbitrary live sessions; the solver decides non-zero, uniqueness among live ids, cursor invariant and refusal rules. Lock discipline on usedMap/offset covers concurrent requests. Agreement between reported and programmed identifiers is checked in the C02/C05 message harnesses.",
-  note="Used set <= 2 (quick) / 4 (thorough) entries, store <= 2/3 sessions, maxRetries <= 2/4. Assumes sync.Mutex gives mutual exclusion; schedules are not executed; SEID draw and PutSession are not atomic across goroutines (noted in DESIGN.md).",
+  text="Inductive one-step checks: FTEIDGenerator.Allocate/FreeID/IsAllocated from an arbitrary valid generator state (symbolic cursor, so wrap-around of the 32-bit cursor is an ordinary case, symbolic used set) and NewPFCPSession with an arbitrary, possibly repeating random source against a store holding arbitrary live sessions; the solver decides non-zero, uniqueness among live ids, cursor invariant and refusal rules. Concurrent requests: lock discipline on usedMap/offset plus every interleaving of the critical sections of two goroutines (Allocate against Allocate [+ FreeID]), context-switch bound 3. A UPF-chosen identifier stays marked while its session lives whatever CP-chosen identifiers other sessions bring and release (H_C07_live, all 2^32 values). Agreement between reported and programmed identifiers is checked in the C02/C05 message harnesses.",
+  note="Used set <= 2 (quick) / 4 (thorough) entries, store <= 2/3 sessions, maxRetries <= 2/4. Assumes sync.Mutex gives mutual exclusion; schedules of 2 goroutines at critical-section granularity only; SEID draw and PutSession are not atomic across goroutines of ONE association (there is one goroutine per association).",
   ref="DESIGN.md 6.7"),
  "C09": dict(
   text="Bounded model checking of the session-QER selection: MarkSessionQer (with Intersect/contains/findItemIndex) is executed symbolically on sessions with 1..3 PDRs, QER-id lists of 0..3 ids and 0..3 QERs, every id and rate symbolic; the solver decides on every path that at most one QER is marked, that the marked QER is referenced by every PDR, that QER values are untouched and that the handlers' two-call protocol marks the same id in the stored and in the message list.",
-  note="Rates/gates/bursts reaching BESS and UP4 are checked in the datapath plug-in harnesses when present in registry.json; the float burst computation is outside (see DESIGN.md). QER ids unique per list/session (PFCP).",
+  note="Rates/gates/bursts reaching BESS (H_C09_bess/_bessburst), the UP4 terminations (H_C09_up4term) and the UP4 meter configuration (shared H_C16_meter: peak rate = MBR x 125 bytes/s exactly) are checked in the plug-in harnesses; the float burst computation is outside (see DESIGN.md). QER ids unique per list/session (PFCP).",
   ref="DESIGN.md 6.9"),
  "C19": dict(
   text="Bounded model checking of ConfigHandler.ServeHTTP / handleSliceConfig / calculateBitRates with the method an arbitrary string, the body unreadable, malformed or any well-formed NetworkSlice with 64-bit rates and bursts, against a recording ResponseWriter and datapath; the solver decides one 405 and no datapath call for other methods, exactly one 4xx and no datapath call for bad bodies, one 201 and rates = MBR x unit (checked against overflow-free arithmetic) whenever non-zero and < 2^63.",
@@ -38,7 +38,7 @@ claimed.update({
   note="Outside: long raw byte strings with symbolic length fields (go-pfcp offset arithmetic), goroutines the handlers start, schedules. The datapath is a fake that accepts. Fixed defects found by this check are listed in known_findings.json.",
   ref="DESIGN.md 6.1"),
  "C05": dict(
-  text="Bounded model checking of session teardown: establishment (accepted, rejected by parsing, rejected by the datapath), optional modification (create with/without CHOOSE, update, remove) and each of the four ways a session ends are executed symbolically through the real handlers, Shutdown, RemoveSession, IPPool and FTEIDGenerator against a fake datapath whose table image is kept by the harness; the solver decides on every path that no rule, session record, gauge unit, TEID or UE address is left, and that more attach/detach cycles than the pool has addresses all succeed.",
+  text="Bounded model checking of session teardown: establishment (accepted, rejected by parsing, rejected by the datapath), optional modification (create with/without CHOOSE, update, remove) and each of the four ways a session ends are executed symbolically through the real handlers, Shutdown, RemoveSession, IPPool and FTEIDGenerator against a fake datapath whose table image is kept by the harness; the solver decides on every path that no rule, session record, gauge unit, TEID or UE address is left, and that more attach/detach cycles than the pool has addresses all succeed. The UP4 plug-in's own release logic is covered by the shared harness H_C04_history (every meter cell free or configured for a live QER after every request, deletion included).",
   note="Generic fake datapath (the plug-ins' own release logic is C04/C15/C03); 1 session, history <= 3 requests; concurrent teardown triggers are C10.",
   ref="DESIGN.md 6.5"),
  "C08": dict(
@@ -50,7 +50,7 @@ claimed.update({
   note="Narrowed: spacing by resp_timeout, the ticker, tryConnectToN4Peers and 'peer dead => sessions removed' are outside (Request.GetResponse is a plan stub under the engine; the native replay runs the real timer code with a peer goroutine).",
   ref="DESIGN.md 6.12"),
  "C13": dict(
-  text="Bounded model checking of both halves. (1) handleDigestReport on a store holding an arbitrary session (1..2 PDRs of either direction, 0..2 FARs with arbitrary Apply Action): nothing is sent for unknown sessions, sessions without downlink PDR or whose downlink FAR does not ask (or does not exist); otherwise exactly one Session Report Request with the CP SEID, a fresh sequence number and the downlink PDR id. (2) The rate limiter NewDownlinkDataNotifier/Notify/shouldNotify over 3 (quick) / 4 (thorough) reports with arbitrary F-SEIDs under a symbolic strictly increasing clock and an arbitrary interval: a first report is always forwarded, two forwarded reports of one session are at least one interval apart, a report is suppressed only within one interval of a forwarded one.",
+  text="Bounded model checking of both halves. (1) handleDigestReport on a store holding an arbitrary session (1..2 PDRs of either direction, 0..2 FARs with arbitrary Apply Action): nothing is sent for unknown sessions, sessions without downlink PDR or whose downlink FAR does not ask (or does not exist); otherwise exactly one Session Report Request with the CP SEID, a fresh sequence number and the downlink PDR id. (2) The rate limiter NewDownlinkDataNotifier/Notify/shouldNotify over 3 reports (4 and 5 returned solver unknown and are not claimed) with arbitrary F-SEIDs under a symbolic strictly increasing clock and an arbitrary interval: a first report is always forwarded, two forwarded reports of one session are at least one interval apart, a report is suppressed only within one interval of a forwarded one. The report channel holds one event and is drained by a slow consumer goroutine, so a full channel must delay the limiter, never make it drop.",
   note="The clock is an input: every time.Now/Since of repository code reads a fresh symbolic instant; the native replay feeds the same instants to the real code through a patched copy of package time in the overlay of the replay build. The UP4 digest loop, the BESS socket reader and node.Serve's dispatch are blocking service loops and are outside. One association.",
   ref="DESIGN.md 6.13, 10"),
  "C14": dict(
@@ -64,12 +64,12 @@ claimed.update({
   note="In-harness BESS (no gRPC transport, no real bessd); the plug-in's per-call goroutines run under ONE deterministic schedule of the engine's baton scheduler; concrete rule values from small sets in the history harness, symbolic ones in the packet harness (true port ranges <= 2 quick / 4 thorough wide; all widths are C17).",
   ref="DESIGN.md 6.3, 10"),
  "C04": dict(
-  text="Bounded model checking of the UP4 translation: the real handlers, UP4.SendMsgToUPF/sendCreate/sendUpdate/sendDelete/modifyUP4ForwardingConfiguration, reference-counting helpers, P4rtTranslator and P4rtClient run symbolically against an in-harness P4Runtime target. After every request of a history (establishment + 1 quick / 2 thorough of {second session, Update FAR to a new peer / buffer / drop / forward, deletion, unknown session}) the solver decides that the target's tables, meters and the agent's id pools equal the image computed from the session store (sessions, terminations, applications, tunnel peers shared by reference count), and that initialize(true) clears a previous incarnation's entries.",
+  text="Bounded model checking of the UP4 translation: the real handlers, UP4.SendMsgToUPF/sendCreate/sendUpdate/sendDelete/modifyUP4ForwardingConfiguration, reference-counting helpers, P4rtTranslator and P4rtClient run symbolically against an in-harness P4Runtime target. After every request of a history (establishment + 1 quick / 2 thorough of {second session, Update FAR to a new peer / buffer / drop / forward / idle without outer header, deletion, unknown session}) the solver decides that the target's tables, meters and the agent's id pools equal the image computed from the session store (sessions, terminations, applications, tunnel peers shared by reference count), and that initialize(true) clears a previous incarnation's entries.",
   note="In-harness target implementing INSERT/MODIFY/DELETE/Read per the P4Runtime specification; real gRPC, reconnect loop and digests outside. Rule values concrete from small sets (arbitrary values are C16); <= 2 sessions.",
   ref="DESIGN.md 6.4, 10"),
  "C11": dict(
-  text="Narrowed to race freedom by lock discipline, decided path-sensitively: on every explored path of create/update/delete for two sessions through UP4.SendMsgToUPF and of establishment / teardown through the handlers, every access to the shared datapath and allocator state (tunnelPeerIDs, applicationIDs, their pools, meters, ueAddrToFSEID, fseidToUEAddr, IPPool inventory/freePool, FTEIDGenerator usedMap/offset) happens while the declared mutex is held. A violation is replayed natively by two goroutines under the Go race detector.",
-  note="Serialisability of outcomes, the BESS plug-in's per-call goroutine ordering and crash isolation are NOT claimed; interleavings are not executed (sync.Mutex is assumed to give mutual exclusion).",
+  text="Two layers. (1) Race freedom by lock discipline, decided path-sensitively: on every explored path of create/update/delete for two sessions through UP4.SendMsgToUPF, of establishment / teardown through the handlers and of create/modify/delete through the BESS plug-in, every access to the shared datapath and allocator state (tunnelPeerIDs, applicationIDs, their pools, meters, ueAddrToFSEID, fseidToUEAddr, IPPool inventory/freePool, FTEIDGenerator usedMap/offset) happens while the declared mutex is held, and the lock-free shared QCI map is never written; violations are replayed natively by two goroutines under the Go race detector. (2) Outcomes under interleaving for one scenario: association 1 deletes session A while association 2 establishes session B with a UPF-chosen address from a pool with one or no free address, under every interleaving of their critical sections (scheduling decision at each acquisition of the shared pool's, generator's and datapath's mutex, context-switch bound 4): every accepted live session owns its datapath entry, addresses held = live sessions, pool conserved - i.e. the result is one a one-at-a-time order could have produced. A schedule-dependent violation is confirmed natively by a stress run.",
+  note="The interleaving layer uses a keyed model of the datapath (downlink entries keyed by UE address, each call one critical section); other request pairs, more than two associations, the BESS plug-in's per-call goroutine ordering and crash isolation are NOT claimed. sync.Mutex is assumed to give mutual exclusion.",
   ref="DESIGN.md 6.11, 10"),
  "C15": dict(
   text="Bounded fault-position model checking: establishment, optional modification and deletion of one session followed by a second session run through the real handlers and UP4 code against the in-harness P4Runtime target with ONE failing Write whose position k is symbolic (1..14 quick / 1..16 thorough, or none) and whose kind is a transport error, INVALID_ARGUMENT, NOT_FOUND or ALREADY_EXISTS; on every path the solver decides that the request is rejected when its write failed, and that counter cells, meter cells, tunnel-peer ids and application ids owned by live entries stay exclusive and are neither leaked nor handed out twice afterwards.",
@@ -84,7 +84,7 @@ claimed.update({
   note="Narrowed: os.ReadFile and json.Unmarshal are stubs under the engine (real in the native replay, which writes the model as a commented JSON file); JSON syntax, 'never panics on arbitrary bytes', non-ASCII text and the shipped sample files are not claimed. Text segments contain no '/', block-comment bodies no '*/' (so that the expected result is unambiguous); longer texts are outside the bound.",
   ref="DESIGN.md 6.18, 10"),
  "C20": dict(
-  text="Symbolic execution of the real conf/route_control.py (Python) by CrossHair with z3: netlink route/neighbour events over a small universe of prefixes, gateways, interfaces and MAC addresses are symbolic; after each event sequence (quick: all 27 kind sequences of 3 events plus the 12 orders of {new route, new route, delete route, neighbour resolution}; thorough: all 81 sequences of 4 events; kinds are new-route / delete-route / neighbour-resolution; the first event's indices fixed per process, the others symbolic) the fake BESS's IPLookup/Update module state must equal the image of the kernel tables the events describe (routes whose next hop resolved, one Update module per neighbour with correct gates, nothing left for deleted routes).",
+  text="Symbolic execution of the real conf/route_control.py (Python) by CrossHair with z3: netlink route/neighbour events over a small universe of prefixes, gateways, interfaces and MAC addresses are symbolic; after each event sequence (quick: all 27 kind sequences of 3 events plus the 12 orders of {new route, new route, delete route, neighbour notification} and the 12 orders of {new route, silent kernel resolution, new route, notification}; thorough: all 81 sequences of 4 events plus the 108 with one silent kernel resolution; kinds are new-route / delete-route / neighbour notification / kernel resolves with the notification still pending; the first event's indices fixed per process, the others symbolic) the fake BESS's IPLookup/Update module state must equal the image of the kernel tables the events describe (routes whose next hop resolved, one Update module per neighbour with correct gates, nothing left for deleted routes).",
   note="pyroute2, pybess and scapy are stub modules (documented contracts); universes A = 3 prefixes x 2 next hops x 1 interface and B = 2 prefixes x 1 next hop x 2 interfaces; CrossHair's per-path timeout is a bound: paths it does not finish are reported in the evidence. One known finding (neighbour cache keyed by IP only) is listed in known_findings.json.",
   engine="crosshair",
   technique="symbolic execution of the real Python source with CrossHair (z3 back end); counterexamples replayed on the plain interpreter",
